@@ -248,6 +248,25 @@ def rules(ck, P):
                         muts.append((i, "assign " + ir.place_str(y["l"])))
             okn = guard_i is not None and bool(muts) and all(i > guard_i for i, _ in muts)
             why = "guard at statement %s, mutations %s" % (guard_i, muts)
+            if not okn and muts:
+                # the positive spelling: `if layer.name == args.layer_name { ..every mutation.. }` (also what `.filter(|l| l.name == name)` means)
+                def is_pos(x):
+                    c_ = ir.cmp_norm(x["c"]) if x["c"].get("k") != "letx" else None
+                    if not c_ or c_[1] != "==":
+                        return False
+                    u = ir.unparen(x["c"])
+                    while u.get("k") == "un" and u.get("op") == "!":
+                        u = ir.unparen(u["e"])
+                    if u.get("k") != "bin":
+                        return False
+                    sd = {comp.deep_place(u["l"], lets), comp.deep_place(u["r"], lets)}
+                    return any(s_.endswith(lv["name"] + ".name") for s_ in sd) and any(s_.endswith("self.args.layer_name") for s_ in sd)
+                pos = [x for x in ir.walk_nodes(lp["body"]) if x.get("k") == "if" and is_pos(x)]
+                mut_nodes = [y for y in ir.walk_nodes(lp["body"]) if (y.get("k") == "mcall" and ir.local_hid(y["recv"]) == lv["hid"] and (y["recv"].get("ta", "").startswith("&mut") or y["recv"].get("t", "").startswith("&mut")) and y.get("name") not in ("iter", "get", "len")) or
+                             (y.get("k") in ("assign", "assignop") and ir.strip(y["l"]).get("k") == "field" and ir.local_hid(ir.strip(y["l"])["e"]) == lv["hid"])]
+                okn = bool(pos) and all(any(ir.contains(x["then"], lambda z: z is y) for x in pos) for y in mut_nodes)
+                if okn:
+                    why = "positive guard"
         ck.check(okn, "R-NAMED-LAYER", b["q"], "every mutation of a layer follows `if layer.name != args.layer_name { continue }`", "layer mutation is not confined to the named layer (%s)" % why, ir.loc(b))
         # other mutations of the tile
         def is_tile_or_layers(e):
